@@ -196,6 +196,11 @@ def run(pid, tier, seed):
         ("LP", "Minimize\n obj: x\nSubject To\n c1: x >= 1\nGeneral\n x"),
         ("LP", "Minimize\n obj: x\nSubject To\n c1"),
         ("MPS", "NAME    P\nROWS\n N  obj\n G  R1\n G  r2"),
+        ("MPS", "NAME demo\nROWS\n N obj\n N free\n G r1\nCOLUMNS\n z free 1\n x obj 1 r1 1\n x r1 2\n y obj 1 r1 1\n y r1 3\nENDATA\n"),
+        ("MPS", "NAME demo\nROWS\n N obj\n G r1\nCOLUMNS\n x obj 1 r1 1\n"),
+        # OBJNAME names a row declared as a constraint that also has a RANGES record (the row becomes the objective after the record was accepted)
+        ("MPS", "NAME demo\nOBJNAME\n cost\nROWS\n G cost\n G r1\nCOLUMNS\n x cost 1 r1 1\nRHS\n rhs r1 1\nRANGES\n rng cost 2\nENDATA\n"),
+        ("MPS", "NAME demo\nOBJNAME\n cost\nROWS\n E r0\n L cost\n G r1\nCOLUMNS\n x cost 1 r1 1 r0 1\nRHS\n rhs r1 1\nRANGES\n rng r0 1\n rng cost -2\nENDATA\n"),
         ("MPS", "NAME    P\nROWS\n N  obj\n G  R1\nCOLUMNS\n x obj 1 R1 1"),
         ("MPS", "NAME    P\nROWS\n N  obj\n G  R1\nCOLUMNS\n x obj 1 R1 1\nRHS\n rhs R1 4\nBOUNDS\n UP bnd x"),
         ("MPS", "NAME    P\nROWS\n N  obj\n G  R1\nCOLUMNS\n x obj 1 R1 1\nRHS\n rhs R1 4\nRANGES\n rng R1"),
@@ -212,7 +217,9 @@ def run(pid, tier, seed):
         lines = [base_lp]
         for kind, fmt, name, data in batch:
             lines.append("putfile %s %s" % (hx(name), data.hex() if data else "-"))
-            lines.append("fork readbasis 0 " + hx(name) if fmt == "BAS" else "fork readcheck %s %s" % (fmt, hx(name)))
+            # plain files: every other one through a line reader with an error collector (QSget_prob) instead of QSread_prob
+            viac = fmt != "BAS" and not name.endswith((".gz", ".bz2")) and (len(data) + len(name)) % 2 == 0
+            lines.append("fork readbasis 0 " + hx(name) if fmt == "BAS" else "fork %s %s %s" % ("readcheckc" if viac else "readcheck", fmt, hx(name)))
         return proto.run_harness(exe, lines, timeout=1800, env_extra={"QSX_ALARM": "20"})
     from concurrent.futures import ThreadPoolExecutor
     with ThreadPoolExecutor(build.NCPU) as ex:
